@@ -16,42 +16,44 @@ def cases(tier, seed):
     tables = [gen.binnify([8], 1), gen.binnify([5, 4], 1), gen.binnify([4, 3, 3], 1), gen.binnify([12, 6], 2)]
     # (1) the split-apply-combine pipeline with adversarial completion orders: exact integer marginals
     for h in range(360 if tier == "quick" else 6000):
-        table = tables[h % len(tables)]
+        F_h = gen.feat(101, h)          # independent feature choices per case (gen.feat)
+        table = tables[F_h("len_tables@18", len(tables))]
         n = len(table)
         px = gen.random_store(rng, n, "symm", density=rng.choice([0.4, 0.8, 1.0]), maxval=9)
         nnz = len(px)
         chunk = rng.choice([1, 2, 3, max(1, nnz - 1), nnz, nnz + 1, nnz + 7, max(1, nnz // 2)])
         o = opts(rng.choice(["genome", "cis"]), rng.choice([0, 1, 2]))
-        yield "bl.pipeline", {"table": table, "px": px, "o": o, "chunk": chunk, "default_spans": h % 2 == 0,
-                              "map": ["seq", "reversed", "perm", "perm"][h % 4], "seed": h,
-                              **({"at": "/a/b"} if h % 7 == 3 else {}), "stale": h % 5 == 2}
+        yield "bl.pipeline", {"table": table, "px": px, "o": o, "chunk": chunk, "default_spans": F_h("m2@24", 2) == 0,
+                              "map": ["seq", "reversed", "perm", "perm"][F_h("m4@25", 4)], "seed": h,
+                              **({"at": "/a/b"} if F_h("m7@26", 7) == 3 else {}), "stale": F_h("m5@26", 5) == 2}
     # (2) full balancing runs under many chunk sizes and map implementations
     big = [gen.binnify([10], 1), gen.binnify([7, 6], 1), gen.binnify([5, 5, 4], 1)]
     for h in range(30 if tier == "quick" else 500):
-        table = big[h % len(big)]
+        F_h = gen.feat(102, h)          # independent feature choices per case (gen.feat)
+        table = big[F_h("len_big@30", len(big))]
         n = len(table)
         nch = 1 + max(t[0] for t in table)
-        if h % 3 == 0:
+        if F_h("m3@33", 3) == 0:
             px = circulant(n, [(2, 4), (3, 2)])                     # a witness: converges at once
         else:
             px = [[i, j, rng.randint(1, 20) + (30 if abs(i - j) < 4 else 0)] for i in range(n) for j in range(i, n)
                   if rng.random() < 0.9]
         nnz = len(px)
-        mode = ["genome", "cis", "genome", "trans"][h % 4] if nch >= 3 else ["genome", "cis"][h % 2] if nch == 2 else "genome"
-        o = opts(mode, rng.choice([0, 1, 2]), rng.choice([0, 2]), 0, h % 5 == 1, [], [], True)
+        mode = ["genome", "cis", "genome", "trans"][F_h("m4@39", 4)] if nch >= 3 else ["genome", "cis"][F_h("m2@39", 2)] if nch == 2 else "genome"
+        o = opts(mode, rng.choice([0, 1, 2]), rng.choice([0, 2]), 0, F_h("m5@40", 5) == 1, [], [], True)
         runs = [[0, "seq"], [1, "seq"], [2, "perm"], [3, "reversed"], [max(1, nnz - 1), "seq"], [nnz, "perm"], [nnz + 5, "seq"],
                 [7, "perm"], [max(2, nnz // 3), "reversed"]]
         if tier == "quick":
             runs = runs[:1] + rng.sample(runs[1:], 5)
-        if h % 6 == 2:
+        if F_h("m6@45", 6) == 2:
             runs += [[5, "pool.map"], [4, "pool.imap"], [3, "pool.imap_unordered"]]
-        if h % 6 == 4 and not o["mad"]:
+        if F_h("m6@47", 6) == 4 and not o["mad"]:
             runs += [[0, "cli.1"], [7, "cli.2"], [0, "cli.8"]]               # the command line with 1, 2, 8 worker processes
-            if h % 12 == 4:
+            if F_h("fewpx", 2) == 0:
                 px = px[:rng.randint(1, 6)]                                   # fewer stored pixels than processes
                 nnz = len(px)
-        yield "bl.schedules", {"table": table, "px": px, "o": o, "runs": runs, "seed": h, "workers": 2 + h % 2,
-                               **({"at": "/resolutions/1000"} if h % 5 == 3 else {}), "stale": h % 4 == 1}
+        yield "bl.schedules", {"table": table, "px": px, "o": o, "runs": runs, "seed": h, "workers": 2 + F_h("m2@52", 2),
+                               **({"at": "/resolutions/1000"} if F_h("m5@53", 5) == 3 else {}), "stale": F_h("m4@53", 4) == 1}
 
 
 def run(tier, seed, only_case=None):
